@@ -135,7 +135,7 @@ def check(pid, tier, seed):
     verdict = common.Verdict(pid)
     exe = harness()
     mcs = [common.model_check(SPEC, "MC_ConcRouter.tla", "MC_ConcRouter_none.cfg", "ConcRouter (3 threads x 2 ops, 2 observers)", heap="8g")]
-    count = {"quick": 1500, "thorough": 30000}[tier]
+    count = {"quick": 1500, "thorough": 120000}[tier]
     script, cfgs = programs(seed, count)
     res = common.run_harness(exe, script)
     execs = {x: events(res.get(x, [])) for x in cfgs}
